@@ -167,7 +167,8 @@ func evalPureStmtBlock(vm *r.VM, stmtBlock *syntax.StmtBlock) (r.Element, error)
 	scope := vm.BeginScope()
 	defer scope.EndScope()
 
-	var rtnValue r.Element
+	// a block without any expression statement (e.g. declarations only) yields 空
+	var rtnValue r.Element = value.NewNull()
 	var err error
 
 	for _, stmt := range stmtBlock.Children {
